@@ -302,7 +302,9 @@ def main():
         print("gosmt binary missing: run setup (make -C /verif)", file=sys.stderr)
         sys.exit(2)
     ncpu = os.cpu_count() or 4
-    par = args.par or max(1, min(len(jobs), ncpu // 2))
+    # avoid oversubscription (solver time limits are wall-clock): processes x harness workers <= cores
+    maxj = max([j.jobs for j in jobs] or [1])
+    par = args.par or max(1, min(len(jobs), ncpu // maxj))
     prepared = [(i, j, prepare(prop, i, j)) for i, j in enumerate(jobs)]
     # heavier jobs first
     runs = []
